@@ -115,6 +115,9 @@ var facts = []fact{
 	{name: "rebound builtin", src: []string{"toa = (x) -> 5", "toa(1)"}, val: "5"},
 	{name: "error in generator", src: []string{"for i <- fromto(0, \"x\") i"}, class: ErrType},
 	{name: "unary minus", src: []string{"-\"a\""}, class: ErrType},
+	{name: "nil loop variable", src: []string{"g = () -> {\n yield nope\n}", "for i <- g() 1"}, class: ErrNil},
+	{name: "nil array element and argument pass through", src: []string{"p = (a, b) -> toa(a) + toa([b])", "p(nope, nope)"}, val: "\"nil[nil]\""},
+	{name: "shifts work on the bit pattern", src: []string{"[1 << 3, -8 >> 1, 1 << 64, 1 << -1, -1 >> 63]"}, val: "[8, 9223372036854775804, 0, 0, 1]"},
 }
 
 func TestFacts(t *testing.T) {
@@ -183,6 +186,13 @@ func TestBacktrace(t *testing.T) {
 		t.Errorf("got %+v, want %+v", err, want)
 	}
 
+	// -x is -1 * x
+	_, _, err = run(t, in, "-true")
+	want = &RunError{Class: ErrType, Operands: []string{"-1", "true"}, Stacks: [][]Frame{{}}}
+	if !reflect.DeepEqual(err, want) {
+		t.Errorf("got %+v, want %+v", err, want)
+	}
+
 	_, _, err = run(t, in, "aton([1])")
 	want = &RunError{Class: ErrType, Operands: []string{"[1]"}, Stacks: [][]Frame{{{"aton", []string{"[1]"}}}}}
 	if !reflect.DeepEqual(err, want) {
@@ -236,6 +246,9 @@ func TestBudget(t *testing.T) {
 		t.Errorf("got %v", err)
 	}
 	in.MaxDepth = 100000
+	if _, _, err := run(t, in, "for e <- w(0) e"); err == nil || err.Class != ErrBudget || len(err.Stacks) != in.MaxLive+1 {
+		t.Errorf("got %v", err)
+	}
 	if v, _, err := run(t, in, "s = (n) -> if n <= 0 0 else n + s(n-1)\ns(90000)"); err != nil || v != "4050045000" {
 		t.Errorf("got %v %v", v, err)
 	}
